@@ -64,6 +64,26 @@ def run_stream(ctx, spec, st, replay, scale, hbin, coqc_shards):
         return {"stats": {"observations": 0, "harness_exit": p.returncode}, "rejections": [],
                 "monitor_failures": [payload], "samples": []}
     vfiles = sorted(glob_(out, "run_*.v"))
+    second_process_diffs = []
+    if st.get("second_process"):
+        out2 = out + "_p2"
+        subprocess.run([hbin, "run", "--master", str(master), "--from", str(frm), "--count", str(count),
+                        "--shards", str(shards), "--profile", profile, "--out-dir", out2],
+                       stdout=subprocess.PIPE, stderr=subprocess.STDOUT, text=True, timeout=3000)
+        for vf in vfiles:
+            a = open(vf).read()
+            try:
+                b = open(os.path.join(out2, os.path.basename(vf))).read()
+            except OSError:
+                b = ""
+            if a != b:
+                da = re.split(r"(?=^Definition o)", a, flags=re.M)
+                db = re.split(r"(?=^Definition o)", b, flags=re.M)
+                for x, y in zip(da, db):
+                    if x != y:
+                        m = re.match(r"Definition o(\d+)", x)
+                        second_process_diffs.append(int(m.group(1)) if m else -1)
+                        break
     t1 = time.time()
     outs = coqc_shards(ctx, vfiles)
     t_c = time.time() - t1
@@ -82,10 +102,30 @@ def run_stream(ctx, spec, st, replay, scale, hbin, coqc_shards):
     dist = collections.Counter()
     sigs = set()
     nontriv = 0
+    for vf, (rc, text) in outs.items():
+        for m in re.finditer(r'"TWIN ([^"]*) END"', text):
+            kv = dict(x.split("=", 1) for x in m.group(1).split())
+            dist["twins"] += 1
+            if kv.get("replayable") == "1":
+                dist["twins_respaced"] += 1
+            if pid == "C09" and kv.get("C09") == "0":
+                idx = int(kv["idx"])
+                mfails.append({"stream": "run", "master": master, "idx": idx, "profile": profile, "property": pid,
+                               "kind": "monitor-false", "monitor": "judge_twin", "verdict": m.group(1), "observation": obs.get(idx, {})})
+    for idx in second_process_diffs:
+        dist["second_process_differs"] += 1
+        if pid == "C09":
+            mfails.append({"stream": "run", "master": master, "idx": idx, "profile": profile, "property": pid,
+                           "kind": "monitor-false", "monitor": "second-process-diff",
+                           "verdict": "the same schedule run in a second process gives a different log", "observation": obs.get(idx, {})})
+    if st.get("second_process"):
+        dist["second_process_compared"] = len(vfiles)
     for ln in lines:
         kv = dict(x.split("=", 1) for x in ln.split())
         idx = int(kv["idx"])
         o = obs.get(idx, {})
+        if "twin_events_merged" in o:
+            o = {k: v for k, v in o.items() if not k.startswith("twin_")}
         base = {"stream": "run", "master": master, "idx": idx, "profile": profile, "property": pid,
                 "verdict": ln, "observation": o}
         if kv["acc"] != "ok":
@@ -426,7 +466,7 @@ def _run_prop(propfile_id, streams, extra_assumptions=None, tested=None):
     return {
         "propfile": "theories/Properties/%s.v" % propfile_id,
         "coq_targets": ["theories/Properties/%s.vo" % propfile_id],
-        "checkers": ["RunCheck"],
+        "checkers": ["RunCheck", "CliCheck"],
         "streams": streams,
         "assumptions": [
             "the controller is modelled at the granularity of one select-loop turn (Ctl.step); labels = what the environment can do; randomness = oracle stream",
@@ -463,7 +503,8 @@ PROPS = {
     "C06": _run_prop("C06", [{"kind": "run", "name": "fail", "profile": "fail", "count": {"quick": 320, "thorough": 4000}, "salt": 6}]),
     "C08": _run_prop("C08", [{"kind": "run", "name": "reeval", "profile": "reeval", "count": {"quick": 160, "thorough": 2000}, "salt": 8},
                              {"kind": "run", "name": "mixed", "profile": "short", "count": {"quick": 160, "thorough": 2000}, "salt": 88}]),
-    "C14": _run_prop("C14", [{"kind": "run", "name": "mixed", "profile": "mixed", "count": {"quick": 320, "thorough": 4000}, "salt": 14}],
+    "C14": _run_prop("C14", [{"kind": "run", "name": "mixed", "profile": "mixed", "count": {"quick": 240, "thorough": 4000}, "salt": 14},
+                             {"kind": "cli", "name": "files", "profile": "valid", "count": {"quick": 48, "thorough": 400}, "salt": 141}],
                      None, ["best-seen file and CSV rows (Writer) are not modelled yet", "probabilities in [0,1] / positive finite scale of meta parameters: monitored on every report item, theorem pending (operator layer)"]),
     "C12": _ops_prop("C12", [{"kind": "ops", "name": "mixed", "profile": "mixed", "count": {"quick": 480, "thorough": 8000}, "salt": 12}]),
     "C13": _ops_prop("C13", [{"kind": "ops", "name": "mixed", "profile": "mixed", "count": {"quick": 320, "thorough": 6000}, "salt": 13},
@@ -523,4 +564,7 @@ PROPS = {
         ],
         "tested_not_proved": ["real binary: argv seen by the child (hostile strings in keys/values/user arguments), result encodings, option combinations, output directory handling, files written"],
     },
+    "C09": _run_prop("C09", [{"kind": "run", "name": "twin", "profile": "twin", "count": {"quick": 160, "thorough": 2000}, "salt": 9, "second_process": True}],
+                     ["C09's theorem is the determinacy of the model; purity of the real RNG / hasher is a fact about rand, rustc-hash and the source text (SourceFacts lints)"],
+                     ["each schedule is run three times in one process (same actions; same completion order with different spacing) and once more in a second process; logs compared (judge_twin / byte-wise)"]),
 }
